@@ -139,6 +139,7 @@ class Facts:
         self.distinct = set(distinct)
         self.tests = []
         self.pin = {}                       # symbol -> constant it is taken to be when a comparison is decided (a world: the first send, j = 1)
+        self.generic_side = None            # '+' / '-': a world in which a generic step index lies far after / far before the step being sent
         self.lost = []                      # calls whose effects on the arrays could not be followed: the evaluation must not be used
         self.crashes = []                   # (message, statement): a name read on the path taken that nothing has bound (NameError / UnboundLocalError)
         self.carry_inits = {}               # carried slot -> its value before the receiving loop
@@ -234,6 +235,29 @@ def _equal3(a, b, facts):
     return None
 
 
+def _sided_sign(d, facts):
+    """sign of c*g + r for a single generic symbol g (a step index an earlier send left behind) in a world of send histories in which g lies
+    far after ('+') or far before ('-') the step being sent: c a non-zero number, r built from the sent index j and numbers only (anything else -
+    the number of time steps, a second generic symbol - bounds g or is unordered with it: undecided).  Such histories exist for every margin
+    (send(1 .. j+M) then send(j); send(j-M) then send(j)), so the sign is that of c (resp. -c) for all M from some margin on."""
+    if facts.pin and not d.is_const():
+        d = d.subs(facts.pin)
+    gs = [s_ for s_ in free_syms(d) if facts.is_generic(s_)]
+    if len(gs) != 1:
+        return None
+    try:
+        c = d.diff(gs[0])
+    except Exception:  # noqa
+        return None
+    if not isinstance(c, F.Rat) or not c.is_const() or c.const_value() == 0:
+        return None
+    r = d - c * F.sym(gs[0])
+    if not free_syms(r) <= {"j"}:
+        return None
+    up = (c.const_value() > 0) == (facts.generic_side == "+")
+    return "+" if up else "-"
+
+
 def truth(v, facts):
     """three-valued truth of a value under the facts of a configuration"""
     if v is None or is_unknown(v):
@@ -284,6 +308,8 @@ def truth(v, facts):
                 return None
             return e if op in ("Eq", "Is") else (not e)
         sg = _sign(a - b, facts)
+        if sg is None and facts.generic_side in ("+", "-"):
+            sg = _sided_sign(a - b, facts)
         if sg is None:
             return None
         table = {"Lt": {"-": True, "0": False, "+": False, ">=0": False}, "LtE": {"-": True, "0": True, "+": False},
@@ -524,6 +550,14 @@ class GenEval(AutoEvaluator):
                     return F.sym("False" if isinstance(node.ops[0], (ast.Is, ast.Eq)) else "True")
         if isinstance(node, (ast.ListComp, ast.GeneratorExp)):
             return self._comprehension(node)
+        if isinstance(node, ast.Compare) and len(node.ops) > 1 \
+                and not any(isinstance(n_, (ast.Call, ast.NamedExpr, ast.Yield, ast.YieldFrom, ast.Await)) for c_ in node.comparators[:-1] for n_ in ast.walk(c_)):
+            # a < b <= c is (a < b) and (b <= c); b is evaluated once by Python, which makes no difference for an operand without calls
+            terms, left = [], node.left
+            for op_, right in zip(node.ops, node.comparators):
+                terms.append(ast.copy_location(ast.Compare(left=left, ops=[op_], comparators=[right]), node))
+                left = right
+            return self._ev(ast.copy_location(ast.BoolOp(op=ast.And(), values=terms), node))
         if isinstance(node, ast.BoolOp):
             # operands left to right; evaluation stops where Python stops, and is speculative once an operand is undecided
             vals, spec = [], 0
